@@ -633,6 +633,27 @@ func (in *esInterp) exec(w []string) string {
 		in.cur, in.posted, in.postedPrev, in.text = nil, nil, nil, ""
 		in.served, in.servedPrev = map[string]string{}, map[string]string{}
 		return "ok"
+	case "relimit":
+		// relimit <limit bits> <scenario payload as for rescenario>: the SAME scenario (name, data set, parameters) POSTed to the
+		// SAME engine with another value of its limit; the summary table the engine keeps is still this scenario's, so the direct
+		// clauses go on (seed C03m: whatever the engine remembers of the previous load must not outlive the limit it was judged by)
+		if in.ref == nil || in.eng == nil || in.limVar < 0 || len(w) < 2 {
+			return "no-engine"
+		}
+		b, perr := strconv.ParseUint(w[1], 16, 64)
+		if perr != nil {
+			return "bad-line"
+		}
+		in.limit = math.Float64frombits(b)
+		st, resp, p := in.eng.do("POST", "/api/v1/scenario", "application/toml", esScenarioToml(in.name, in.dsPath, in.limVar, in.limit, in.params))
+		if p != "" {
+			return "panic"
+		}
+		if st != 200 {
+			return fmt.Sprintf("status:%d:%s", st, clip(resp, 120))
+		}
+		in.served, in.servedPrev = map[string]string{}, map[string]string{}
+		return "ok"
 	case "summary", "summaryx":
 		s, ok := esParseSummaryOp(w[1:])
 		if !ok {
@@ -1762,6 +1783,24 @@ func suiteEngineSummaries(c *Ctx) {
 		// validity against this engine's scenario
 		for _, r := range s.rows {
 			in.do("patch " + esHx(r.enc))
+		}
+		// the same scenario, under the same name, POSTed again with a TIGHTER limit; the summary is not posted again: labels
+		// pooled before and labels first asked for now must both be judged by the limit in force (seed C03m)
+		tighter := math.Round((asIsVal+(limit-asIsVal)*(0.1+0.4*g.r.Float()))*1000) / 1000
+		if vi >= 4 {
+			tighter = math.Round(tighter)
+		}
+		if tighter > asIsVal && tighter < limit {
+			half := len(s.rows) / 2
+			if in.do("relimit "+floatBits(tighter)+strings.TrimPrefix(g.scenarioLineOf("rescenario"), "rescenario")) == "ok" {
+				c.Stat("C03: the same scenario re-posted with a tighter limit, summary kept")
+				for _, r := range s.rows[half:] {
+					in.do("getvalid " + esHx(r.label))
+				}
+				for _, r := range s.rows[:half] {
+					in.do("getvalid " + esHx(r.label))
+				}
+			}
 		}
 	}
 
